@@ -34,7 +34,9 @@
 #include <igris/util/verif_point.h>
 
 #include <algorithm>
+#include <condition_variable>
 #include <deque>
+#include <dlfcn.h>
 #include <fcntl.h>
 #include <linux/futex.h>
 #include <map>
@@ -120,6 +122,21 @@ NOTSAN static void park(int t, char code, const void *obj, int cnt)
                 snprintf(b, sizeof b, "mutual exclusion: threads %d (count %d) and %d (count %d) hold the system lock together", t, cnt, u, slot[u].cnt);
                 oracle_fail(b);
             }
+    // --- oracle: nobody passes event.wait unless its event was signalled
+    // (a spurious return of the condition variable must not get through)
+    if (code == 'u')
+    {
+        bool sig = false;
+        for (int i = 0; i < nsignalled; i++)
+            if (signalled[i] == obj)
+                sig = true;
+        if (!sig)
+        {
+            char b[200];
+            snprintf(b, sizeof b, "spurious wake-up: thread %d passed event.wait although nobody signalled its event (it is still in the wait queue)", t);
+            oracle_fail(b);
+        }
+    }
     if (code == 'q')
     {
         live_ev[t] = obj; // a new event object (possibly at the address of an earlier one)
@@ -180,6 +197,36 @@ static size_t prim_size(char code)
     }
 }
 
+// ---------------------------------------------------------------------------
+// spurious returns of the condition-variable wait (POSIX permits them).
+// The scheduler produces one on command: it broadcasts on the waiter's
+// condition variable WITHOUT setting the flag — for the waiter this is
+// indistinguishable from a spurious return of pthread_cond_wait.  The
+// broadcast goes to glibc directly (not through TSan's interceptor): like
+// everything the scheduler does it must stay invisible to the race detector.
+// ---------------------------------------------------------------------------
+struct EvMirror // layout of igris::event (its members are private)
+{
+    bool flag;
+    std::mutex m;
+    std::condition_variable c;
+};
+static_assert(sizeof(EvMirror) == sizeof(igris::event), "igris::event layout changed");
+typedef int (*cond_fn)(pthread_cond_t *);
+static cond_fn real_broadcast = nullptr;
+static void init_real_broadcast()
+{
+    void *h = dlopen("libc.so.6", RTLD_LAZY | RTLD_NOLOAD);
+    if (!h)
+        h = dlopen("libc.so.6", RTLD_LAZY);
+    real_broadcast = h ? (cond_fn)dlsym(h, "pthread_cond_broadcast") : nullptr;
+    if (!real_broadcast)
+    {
+        fprintf(stderr, "C20 harness: cannot resolve glibc's pthread_cond_broadcast\n");
+        abort();
+    }
+}
+
 // is thread t asleep in futex() on an address inside the primitive it was about to use?
 NOTSAN static bool asleep_on_primitive(int t)
 {
@@ -214,6 +261,50 @@ NOTSAN static bool asleep_on_primitive(int t)
     buf[n] = 0;
     char *p = strrchr(buf, ')');
     return p && p[1] == ' ' && p[2] == 'S';
+}
+
+// address the thread sleeps on in futex(), 0 if it is not in futex()
+NOTSAN static unsigned long futex_addr(int t)
+{
+    char path[64], buf[256];
+    snprintf(path, sizeof path, "/proc/self/task/%d/syscall", slot[t].ktid);
+    int fd = open(path, O_RDONLY);
+    if (fd < 0)
+        return 0;
+    ssize_t n = read(fd, buf, sizeof buf - 1);
+    close(fd);
+    if (n <= 0)
+        return 0;
+    buf[n] = 0;
+    unsigned long nr = 0, a0 = 0;
+    if (sscanf(buf, "%lu %lx", &nr, &a0) != 2 || nr != SYS_futex)
+        return 0;
+    return a0;
+}
+// asleep inside the condition variable of its own event (not on the event's mutex)
+NOTSAN static bool asleep_in_cv(int t)
+{
+    if (__atomic_load_n(&slot[t].st, __ATOMIC_ACQUIRE) != RUNNING || slot[t].hook != 'c' || !asleep_on_primitive(t))
+        return false;
+    const EvMirror *m = (const EvMirror *)slot[t].obj;
+    unsigned long a = futex_addr(t), lo = (unsigned long)&m->c;
+    return a >= lo && a < lo + sizeof(m->c);
+}
+// number of voluntary context switches of thread t (it grows by one each time the thread goes to sleep)
+NOTSAN static long nvcsw(int t)
+{
+    char path[64], buf[2048];
+    snprintf(path, sizeof path, "/proc/self/task/%d/status", slot[t].ktid);
+    int fd = open(path, O_RDONLY);
+    if (fd < 0)
+        return -1;
+    ssize_t n = read(fd, buf, sizeof buf - 1);
+    close(fd);
+    if (n <= 0)
+        return -1;
+    buf[n] = 0;
+    const char *p = strstr(buf, "\nvoluntary_ctxt_switches:");
+    return p ? atol(p + 26) : -1;
 }
 
 static double now_s()
@@ -259,6 +350,30 @@ NOTSAN static bool quiesce()
                 return false;
         }
     }
+}
+
+// make the condition-variable wait of thread t (asleep in it) return without
+// the flag having been set; wait until the thread has slept again somewhere
+// (in the condition variable: predicate loop; on the event mutex: a waker
+// holds it) or arrived at a point (it got through)
+NOTSAN static bool spur_wake(int t)
+{
+    long v0 = nvcsw(t);
+    EvMirror *m = (EvMirror *)slot[t].obj;
+    real_broadcast(m->c.native_handle());
+    double deadline = now_s() + 20.0;
+    for (;;)
+    {
+        if (__atomic_load_n(&slot[t].st, __ATOMIC_ACQUIRE) != RUNNING)
+            break;
+        if (asleep_on_primitive(t) && nvcsw(t) > v0)
+            break;
+        if (now_s() > deadline)
+            return false;
+        timespec ts = {0, 20000};
+        nanosleep(&ts, nullptr);
+    }
+    return quiesce();
 }
 
 NOTSAN static int get_st(int t) { return __atomic_load_n(&slot[t].st, __ATOMIC_ACQUIRE); }
@@ -515,12 +630,46 @@ static void run_case(const std::vector<std::string> &w, hv::out &o)
                 }
     };
 
+    // schedule letter a..f: spurious return of the condition-variable wait of thread 0..5
+    bool any_spur = false;
+    auto spur = [&](int t) {
+        if (t >= n || !asleep_in_cv(t))
+        {
+            trace += std::to_string(t) + "~- ";
+            return;
+        }
+        bool waspend[MAXT];
+        for (int u = 0; u < n; u++)
+            waspend[u] = (get_st(u) == RUNNING);
+        if (!spur_wake(t))
+        {
+            hang = true;
+            return;
+        }
+        any_spur = true;
+        trace += std::to_string(t) + "~ ";
+        std::vector<std::pair<unsigned long, int>> woke;
+        for (int u = 0; u < n; u++)
+            if (waspend[u] && get_st(u) != RUNNING)
+                woke.push_back({get_slot(u).seq, u});
+        std::sort(woke.begin(), woke.end());
+        for (auto &pr : woke)
+        {
+            set_pending(pr.second, false);
+            trace += "+" + std::to_string(pr.second) + " ";
+            acts.push_back({pr.second, '+'});
+        }
+    };
+
     size_t consumed = 0;
     for (char ch : sched)
     {
         if (hang || multipend)
             break;
-        grant(ch - '0');
+        if (ch >= 'a' && ch <= 'f')
+            spur(ch - 'a');
+        else
+            grant(ch - '0');
         consumed++;
     }
     trace += "| ";
@@ -588,7 +737,7 @@ static void run_case(const std::vector<std::string> &w, hv::out &o)
                     if (tk == "|") continue;
                     if (tk[0] == '+') { int u = tk[1] - '0'; pts[u].push_back(blockedAt[u]); pts[u].push_back('#'); continue; }
                     int t = tk[0] - '0';
-                    if (tk[1] == '-') continue;
+                    if (tk[1] == '-' || tk[1] == '~') continue;
                     if (tk.size() > 2 && tk[2] == '!') { blockedAt[t] = tk[1]; continue; }
                     pts[t].push_back(tk[1]); pts[t].push_back('#');
                 }
@@ -604,7 +753,7 @@ static void run_case(const std::vector<std::string> &w, hv::out &o)
                     if (tk == "|") continue;
                     if (tk[0] == '+') { int u = tk[1] - '0'; seq.push_back({u, blockedAt[u]}); continue; }
                     int t = tk[0] - '0';
-                    if (tk[1] == '-') continue;
+                    if (tk[1] == '-' || tk[1] == '~') continue;
                     if (tk.size() > 2 && tk[2] == '!') { blockedAt[t] = tk[1]; continue; }
                     seq.push_back({t, tk[1]});
                 }
@@ -707,6 +856,7 @@ static void run_case(const std::vector<std::string> &w, hv::out &o)
     if (trace.find('+') != std::string::npos) o.tag("handoff");
     if (trace.find("c!") != std::string::npos) o.tag("cv-sleep");
     if (multipend) o.tag("multipend");
+    if (any_spur) o.tag("spurious-return");
     {
         // wake raced with the park: a signal step happened before the waiter reached its cv check
         size_t ps = trace.find('s'), pc_ = trace.find('c');
@@ -1081,9 +1231,65 @@ static std::string rand_prog_set(hv::rng &r, std::string &init)
     return s;
 }
 
+// threads of a program set that contain a wait op
+static std::vector<int> waiter_threads(const std::string &progs)
+{
+    std::vector<int> w;
+    auto ps = split(progs, '/');
+    for (size_t t = 0; t < ps.size(); t++)
+        if (ps[t].find('W') != std::string::npos)
+            w.push_back((int)t);
+    return w;
+}
+// insert k spurious-return letters (for waiter threads) at random positions
+static std::string with_spurs(hv::rng &r, std::string sched, const std::vector<int> &w, int k)
+{
+    if (w.empty())
+        return sched;
+    for (int i = 0; i < k; i++)
+    {
+        size_t pos = (size_t)r.below(sched.size() + 1);
+        sched.insert(sched.begin() + pos, (char)('a' + w[r.below(w.size())]));
+    }
+    return sched;
+}
+// every interleaving of a program set, each with spurious returns inserted
+static void all_perms_spur(hv::rng &r, const std::string &progs, std::vector<int> left, std::string &cur, long &count, int every, int variants)
+{
+    bool any = false;
+    for (size_t t = 0; t < left.size(); t++)
+        if (left[t] > 0)
+        {
+            any = true;
+            left[t]--;
+            cur.push_back('0' + t);
+            all_perms_spur(r, progs, left, cur, count, every, variants);
+            cur.pop_back();
+            left[t]++;
+        }
+    if (!any && (count++ % every) == 0)
+        for (int v = 0; v < variants; v++)
+            emit_case(progs, "", with_spurs(r, cur, waiter_threads(progs), 1 + (int)r.below(2)));
+}
+
 static void gen(hv::rng &r, const std::string &tier)
 {
     bool thorough = tier == "thorough";
+    // --- spurious returns of the condition-variable wait (schedule letters a..f)
+    for (int k = 0; k <= 6; k++) // the waiter sleeps; one spurious return between any two steps of the waker
+        emit_case("W0/O5", "", "00000" + std::string(k, '1') + "a" + std::string(6 - k, '1'));
+    emit_case("W0/O5", "", "00000aa1a1a1a1a1a1a");       // a spurious return after every step
+    emit_case("W0/O5", "", "0000a0a1111110");            // not yet / no longer asleep: no effect
+    emit_case("W0/O5", "", "00000a");                    // only a spurious return, then the rest runs
+    emit_case("W0/W0/A9", "", "0000011111ab2b2a2222b2a222");
+    emit_case("W0/W1/O5,O6", "", "0000011111ba2a2b22222a22b2");
+    emit_case("W0/W0/W0/A9", "", "000001111122222abc3c3b3a3333");
+    emit_case("W0,W0/O5,O6", "", "00000a111111a00000a111111");
+    {
+        std::string cur;
+        long count = 0;
+        all_perms_spur(r, "W0/O5", step_counts("W0/O5"), cur, count, thorough ? 1 : 4, thorough ? 2 : 1);
+    }
     // directed
     emit_case("L,U", "", "00");
     emit_case("L,L,U,U/L,U", "", "0010111");          // re-entry, blocked attempt, hand-off at depth 0 only
@@ -1121,15 +1327,27 @@ static void gen(hv::rng &r, const std::string &tier)
         std::string init, progs = rand_prog_set(r, init);
         auto cnt = step_counts(progs);
         int ns = thorough ? 6 : 4;
+        auto wt = waiter_threads(progs);
         for (int k = 0; k < ns; k++)
-            emit_case(progs, init, rand_sched(r, cnt, (int)r.below(3)));
+        {
+            std::string sc = rand_sched(r, cnt, (int)r.below(3));
+            if (!wt.empty() && r.chance(50))
+                sc = with_spurs(r, sc, wt, 1 + (int)r.below(3));
+            emit_case(progs, init, sc);
+        }
     }
     // the two/three-waiter scenarios with many random schedules
     for (const char *pg : {"W0/W0/A9", "W0/W1/O5,O6", "W0/W0/O5/O6", "W0/O5/A6", "W0,W0/O5,A6"})
     {
         auto cnt = step_counts(pg);
+        auto wt = waiter_threads(pg);
         for (int k = 0; k < (thorough ? 1500 : 120); k++)
-            emit_case(pg, "", rand_sched(r, cnt, (int)r.below(3)));
+        {
+            std::string sc = rand_sched(r, cnt, (int)r.below(3));
+            if (k % 2)
+                sc = with_spurs(r, sc, wt, 1 + (int)r.below(3));
+            emit_case(pg, "", sc);
+        }
     }
 }
 
@@ -1143,7 +1361,10 @@ int main(int argc, char **argv)
         return 0;
     }
     if (argc >= 2 && !strcmp(argv[1], "run"))
+    {
+        init_real_broadcast();
         return supervise();
+    }
     fprintf(stderr, "usage: %s gen <seed> <tier> | run\n", argv[0]);
     return 2;
 }
